@@ -99,6 +99,12 @@ def main(run):
                  "2024-01-01\n a\u1680:b  1\n c\n", "2024-01-01\n a  1\n b\u1680:c\n", "2024-01-01\n a:\u1680b\u1680:c  1\n d\n",
                  "2024-01-01\n a  1 X\u1680\n b\n", "2024-01-01\n # tags: t\u1680\n a  1\n b\n", "2024-01-01\n a 1\n b\n" * 1 + "\n" * 1000]:
         reqs.append({"conf": {"toml": toml}, "inputs": [{"text": text}], "ops": [{"op": "txns"}]}); meta.append(("extreme", None, text))
+    # a faulty line that is long and not ASCII (error messages echo the line)
+    for L in list(range(470, 560, 4)) + [1000, 1021, 1022, 1023, 1024, 2047, 4096]:
+        for ch in ("é", "€", "\U0001F600"):
+            for text in ("2024-01-01\n a  1x ; " + ch * L + "\n b\n", "2024-01-01 '" + ch * L + "\n a  1 ; ok\n b  -2\n",
+                         "2024-01-01\n a  1 ; " + ch * L + "\n b  1 @\n"):
+                reqs.append({"conf": {"toml": toml}, "inputs": [{"text": text}], "ops": [{"op": "txns"}]}); meta.append(("extreme", None, text))
     res = harness_run(reqs, timeout=900)
     classes = {}
     distinct = set()
@@ -194,6 +200,28 @@ def main(run):
         elif not (bits & 1):
             run.violation("correspondence broken: Load.load_files differs from paths_to_txns", {"correspondence": "C15_corr.c15_case",
                           "per_file_outcomes": outs[:-1], "all_files_outcome": outs[-1]}, found_input=False)
+    # ---- stream 6: file-system storage with an entry that cannot be read: the load must fail
+    good = "2024-01-01 'g\n a  1\n b  -1\n"
+    ureqs = []
+    for shape in ("dangling-file-link", "link-loop-dir", "dangling-link-in-subdir"):
+        inputs = [{"name": "txns/a.txn", "text": good}, {"name": "txns/sub/b.txn", "text": good}]
+        if shape == "dangling-file-link":
+            inputs.append({"name": "txns/bad.txn", "symlink_to": "does-not-exist.txn"})
+        elif shape == "link-loop-dir":
+            inputs.append({"name": "txns/loop", "symlink_to": "../txns"})
+        else:
+            inputs.append({"name": "txns/sub/bad.txn", "symlink_to": "../nowhere/x.txn"})
+        ureqs.append(({"conf": {"toml": toml}, "load": "fsdir", "fs_dir": "txns", "fs_ext": "txn", "inputs": inputs, "ops": [{"op": "txns"}]}, shape))
+    ures = harness_run([u[0] for u in ureqs])
+    for (rq, shape), rr in zip(ureqs, ures):
+        run.cov["evaluations"] += 1
+        st = rr.get("stage")
+        classes[("unreadable", st)] = classes.get(("unreadable", st), 0) + 1
+        if st == "done":
+            run.violation("file-system storage: an unreadable journal file or directory (%s) was silently skipped and a transaction set was produced from the others" % shape,
+                          {"inputs": rq["inputs"], "loaded_transactions": len(rr["results"][0].get("ok") or [])})
+        elif st in ("panic", "abort", "timeout"):
+            run.violation("loading ended in %s instead of a transaction set or an error" % st, {"inputs": rq["inputs"]})
     # ---- site audit (informational): panic-capable constructs in the load path
     run.notes["panic_sites"] = panic_sites()
     run.notes["classes"] = {"%s/%s" % k: v for k, v in sorted(classes.items())}
